@@ -152,6 +152,10 @@ def run(ctx):
         jobs = [(c, 3, 4, False) for c in cfgs]
         jobs += [(c, 2, 3, False, True) for c in cfgs]  # + detections with one / all nodes missing
         jobs += [("interleaved", c, 2, 2) for c in cfgs]  # two tracker objects alive, all pairs of 2-frame histories
+        # options otherwise only varied in the thorough tier, at a small depth: score threshold 0.5 with low-score
+        # detections in the alphabet, reduction 'max', windows 1 and 3
+        jobs += [(c, 2, 3, True) for c in T.all_configs(windows=[2], thresholds=[0.5])]
+        jobs += [(c, 2, 3, False) for c in T.all_configs(windows=[1, 3], thresholds=[0.0], reductions=("max",))]
         ctx.bounds = {"depth": 4, "K": 3, "configs": len(cfgs), "events_per_frame": 16}
     else:
         cfgs = T.all_configs(windows=[1, 2, 3], thresholds=[0.0, 0.5], reductions=("mean", "max"))
